@@ -132,6 +132,14 @@ func GenAnyFees(r *rand.Rand, w *world.World, a *big.Int) []spec.Fee {
 			f.Recipient = ""
 		case 3:
 			f.Recipient = f.Recipient[:len(f.Recipient)-1]
+		case 8:
+			// a valid address padded with white space is not an address
+			pad := []string{" ", "\t", "\n", "\u00a0"}[r.Intn(4)]
+			if r.Intn(2) == 0 {
+				f.Recipient = pad + f.Recipient
+			} else {
+				f.Recipient += pad
+			}
 		}
 		if r.Intn(2) == 0 {
 			f.IsBPS = true
